@@ -28,6 +28,39 @@ def parent_map(fn):
     return pm
 
 
+def worklist_ancestors(h) -> bool | None:
+    """True if `h` is the textbook search:  queue = [start]; while queue: cur = queue.pop*(); for p in parents(cur):
+    if p is new: mark it, add it to the result, enqueue it  -  with no other way out of the loops."""
+    whiles = [w for w in ast.walk(h.node) if isinstance(w, ast.While)]
+    if len(whiles) != 1:
+        return None
+    w = whiles[0]
+    q = norm(w.test)
+    if not isinstance(w.test, ast.Name):
+        return None
+    if any(isinstance(x, (ast.Break, ast.Return)) for x in ast.walk(w)):
+        return None
+    pops = [s_ for s_ in w.body if isinstance(s_, ast.Assign) and isinstance(s_.value, ast.Call) and call_name(s_.value) in ("pop", "popleft") and norm(s_.value.func.value) == q]
+    fors = [f_ for f_ in w.body if isinstance(f_, ast.For)]
+    if len(pops) != 1 or len(fors) != 1 or not isinstance(fors[0].target, ast.Name):
+        return None
+    cur, par = norm(pops[0].targets[0]), fors[0].target.id
+    if cur not in norm(fors[0].iter):
+        return None
+    adds = {norm(x.func.value) for x in ast.walk(fors[0]) if isinstance(x, ast.Call) and call_name(x) in ("add", "append") and x.args and norm(x.args[0]) == par}
+    rets = {norm(r.value) for r in ast.walk(h.node) if isinstance(r, ast.Return) and r.value is not None}
+    if q not in adds or not (adds & rets):
+        return None
+    # the only skip is "already seen"
+    for i in ast.walk(fors[0]):
+        if isinstance(i, ast.If):
+            t = norm(i.test).replace(" ", "")
+            seen_sets = {a_ for a_ in adds}
+            if not any(t in (f"{par}in{s_}", f"{par}notin{s_}") for s_ in seen_sets):
+                return None
+    return True
+
+
 def explicit_walk(P: Program, R: Report, c, gparam: str, sel: str) -> None:
     """R15.4 - a hand-written parent walk instead of nx.ancestors.
 
@@ -173,14 +206,26 @@ def run(P: Program, R: Report, tier: str) -> None:
         if not closure_vars:
             continue
         cv = next(iter(closure_vars))
+        from ..resolve import Resolver as _Rs15
+
+        rs15 = _Rs15(P, f)
         first_arg_ok = all(
-            norm(c.args[0]) == "tracks.graph" for c in ast.walk(f.node) if isinstance(c, ast.Call) and call_name(c) == CLOSURE
+            rs15.text(c.args[0]) == "tracks.graph" for c in ast.walk(f.node) if isinstance(c, ast.Call) and call_name(c) == CLOSURE
         )
         R.check(first_arg_ok, "R15.2", f, f.node, f"{f.short}: the closure is taken in the tracks graph", "", via="dataflow")
         if f.name == "export_to_csv":
             loops = [lp for lp in ast.walk(f.node) if isinstance(lp, ast.For) and any(isinstance(c, ast.Call) and call_name(c) == "append" and "rows" in norm(c.func.value) for c in ast.walk(lp))]
-            R.check(len(loops) == 1 and norm(loops[0].iter) == cv, "R15.2", f, loops[0] if loops else f.node,
-                    "CSV rows iterate the closed set", f"rows iterate `{norm(loops[0].iter) if loops else '?'}`", via="dataflow")
+            iters = [norm(lp.iter) for lp in loops]
+            # rows = [row(n) for n in <closed set>]
+            for st_ in ast.walk(f.node):
+                if isinstance(st_, (ast.Assign, ast.AnnAssign)) and st_.value is not None and isinstance(st_.value, (ast.ListComp, ast.GeneratorExp)) and "row" in norm(
+                        st_.targets[0] if isinstance(st_, ast.Assign) else st_.target):
+                    iters.append(norm(st_.value.generators[0].iter))
+                    loops.append(st_)
+            if not iters:
+                R.undecided("R15.2", f, f.node, "CSV rows iterate the closed set", "construction of the rows not recognised")
+            else:
+                R.check(len(iters) == 1 and iters[0] == cv, "R15.2", f, loops[0], "CSV rows iterate the closed set", f"rows iterate `{iters}`", via="dataflow")
             # the relabelled segmentation maps only exported ids
             ma = [c for c in ast.walk(f.node) if isinstance(c, ast.Call) and call_name(c) == "map_array"]
             if ma:
@@ -242,6 +287,18 @@ def run(P: Program, R: Report, tier: str) -> None:
     c = P.func_named(CLOSURE)
     gparam, sel = c.params[0], c.params[1]
     anc = [x for x in ast.walk(c.node) if isinstance(x, ast.Call) and norm(x.func) in ("nx.ancestors", "networkx.ancestors", "ancestors")]
+    # a module helper that computes the ancestors of ONE node by a complete worklist search counts as nx.ancestors
+    for x in ast.walk(c.node):
+        if isinstance(x, ast.Call) and isinstance(x.func, ast.Name) and len(x.args) >= 2:
+            h = P.functions.get(P.resolve_name(c.module, x.func.id) or "")
+            if h is not None and h is not c and "predecessors" in norm(h.node):
+                v = worklist_ancestors(h)
+                if v is True:
+                    anc.append(x)
+                    R.ok("R15.3", h, h.node, f"{h.short} collects every ancestor of its start node (complete worklist search)", via="loop-shape")
+                else:
+                    R.undecided("R15.3", h, h.node, f"{h.short} collects every ancestor of its start node", "worklist shape not recognised")
+                    anc.append(x)
     if not anc:
         walks = [x for x in ast.walk(c.node) if isinstance(x, ast.Call) and call_name(x) in ("predecessors", "in_edges", "reverse")]
         if walks:
